@@ -157,14 +157,19 @@ def job_alloc(aw, with_io, nfixed):
                      replay_dir=rdir(), max_paths=400000)
 
 
-def job_decoder(dw):
+SIZES_ENUM = [4, 8, 0x0c, 0x40, 0x1000, 0x1800, 0x3000, 0x5000, 0x18000, 0x10000000, 0x30000000, 0x80000000, 2**32]
+
+
+def job_decoder(dw, enum_sizes=False):
     stubs()
     from litex.soc.integration.soc import SoCRegion, SoCError
     aw = 32
 
     def body(ctx):
         origin = ctx.int("origin", 0, 2**aw - 1)
-        size = ctx.int("size", dw // 8, 2**aw)
+        # sizes: one solver integer (default), or enumerated concrete sizes incl. non powers of two (so that code that masks with size-1 instead of
+        # the rounded size stays inside the supported integer fragment: and with a constant)
+        size = ctx.choice("size", [x for x in SIZES_ENUM if x >= dw // 8]) if enum_sizes else ctx.int("size", dw // 8, 2**aw)
         r = SoCRegion(origin=origin, size=size)
         try:
             dec = r.decoder(Bus(dw, aw))
@@ -180,7 +185,7 @@ def job_decoder(dw):
             return dict(decoder_true_exactly_on_window=(hit == inwin))
         hz = pysym.to_z3(hit)
         return dict(decoder_true_exactly_on_window=pysym.SymBool(hz == pysym.to_z3(inwin)))
-    return run_pysym("decoder_dw%d" % dw, body, ["decoder_true_exactly_on_window", "refusal_only_if_unaligned"], required_events=["decoded", "refused"], funcs=FUNCS,
+    return run_pysym("decoder_dw%d%s" % (dw, "_enumerated_sizes" if enum_sizes else ""), body, ["decoder_true_exactly_on_window", "refusal_only_if_unaligned"], required_events=["decoded", "refused"], funcs=FUNCS,
                      cfg=dict(bus_data_width=dw, address_width=aw), replay_dir=rdir())
 
 
@@ -279,6 +284,7 @@ def jobs(tier):
           Job("alloc_aw5_f2", job_alloc, dict(aw=5, with_io=False, nfixed=2), cost=40, timeout_s=3400),
           Job("alloc_aw5_io_f1", job_alloc, dict(aw=5, with_io=True, nfixed=1), cost=40, timeout_s=3400),
           Job("decoder_dw32", job_decoder, dict(dw=32), cost=5), Job("decoder_dw64", job_decoder, dict(dw=64), cost=5),
+          Job("decoder_dw32_enumerated_sizes", job_decoder, dict(dw=32, enum_sizes=True), cost=5), Job("decoder_dw64_enumerated_sizes", job_decoder, dict(dw=64, enum_sizes=True), cost=5),
           Job("locations_base", job_locs, dict(kind="base"), cost=20, timeout_s=3400), Job("locations_irq", job_locs, dict(kind="irq"), cost=20, timeout_s=3400),
           Job("locations_csr", job_locs, dict(kind="csr"), cost=20, timeout_s=3400),
           Job("platform_2req", job_platform, dict(nreq=2), cost=10, timeout_s=3400)]
